@@ -19,6 +19,7 @@ func init() {
 		Assumptions: []string{"sort.Search(n, f) returns an index in [0, n]; Collection.List is sorted by id (C01 R01.4)"},
 		Run:         runC15,
 		Controls: []Control{
+			{Name: "skip-stops-before-the-last-child", File: "pkg/trait/parentpb/model_server.go", Old: "\t\tif nextIndex < len(all) && all[nextIndex].Name == lastKey {\n", New: "\t\tif nextIndex < len(all)-1 && all[nextIndex].Name == lastKey {\n", Expect: "R15.4"},
 			{Name: "waste-walk-stops-above-zero", File: "pkg/trait/wastepb/model.go", Old: "\tfor i := start - 1; i >= 0; i-- {\n", New: "\tfor i := start - 1; i > 0; i-- {\n", Expect: "R15.11"},
 			{Name: "id-callback-writes-the-callers-copy", File: "pkg/trait/vendingpb/model.go", Old: "\treturn castConsumable(m.consumables.Add(consumable.Name, consumable, resource.WithGenIDIfAbsent()", New: "\trecord := proto.Clone(consumable).(*traits.Consumable)\n\treturn castConsumable(m.consumables.Add(consumable.Name, record, resource.WithGenIDIfAbsent()", Expect: "R15.10"},
 			{Name: "revert-F44-listing-fetched-with-read-mask", File: "pkg/trait/hailpb/model_server.go", Old: "\tsortedItems := m.model.ListHails()\n", New: "\tsortedItems := m.model.ListHails(resource.WithReadMask(request.ReadMask))\n", Expect: "R15.9"},
@@ -478,6 +479,7 @@ func r15handler(c *an.Ctx, h pagingHandler) {
 	}
 	// non-strict search needs the equality skip: Low can be search+1 guarded by listing[idx].key == lastKey
 	skip := false
+	var tight ssa.Instruction
 	if !strict {
 		for _, v := range an.Sources(page.Low) {
 			if bo, ok := v.(*ssa.BinOp); ok && bo.Op == token.ADD {
@@ -488,10 +490,26 @@ func r15handler(c *an.Ctx, h pagingHandler) {
 								skip = true
 							}
 						}
+						// the index test in front of it admits every index of the listing, the last one included: `i < len-1`
+						// leaves the last item un-skipped, which is then sent again (for ever, with a page size of one)
+						if cb, isC := e.If.Cond.(*ssa.BinOp); isC && e.Branch && (cb.Op == token.LSS || cb.Op == token.LEQ) {
+							if sub, isSub := cb.Y.(*ssa.BinOp); isSub && sub.Op == token.SUB {
+								if k, isK := an.ConstInt(sub.Y); isK {
+									if lc, isCall := sub.X.(*ssa.Call); isCall && an.CalleeName(lc) == "builtin len" {
+										if (cb.Op == token.LSS && k >= 1) || (cb.Op == token.LEQ && k >= 2) {
+											tight = e.If
+										}
+									}
+								}
+							}
+						}
 					}
 				}
 			}
 		}
+	}
+	if tight != nil {
+		c.Bad("R15.4", name+"|the skip of the last key sent reaches the end of the listing", tight.Pos(), "the test that steps over the item equal to the token's key only looks at indices below len-1: when a page ends on the last item that item is returned again on the next request, and with it the same token")
 	}
 	c.Check(okN && keyField != "" && okLast && (strict || skip), "R15.4", name+"|search resumes strictly after the last key sent", search.Pos(), fmt.Sprintf("key field %s, strict=%v skip=%v", keyField, strict, skip),
 		fmt.Sprintf("the search over the listing (len arg ok: %v) must find the first item whose key (field %q) is greater than the token's last key (from the token: %v), strictly or with an equality skip: otherwise the last item of a page is returned again at the start of the next", okN, keyField, okLast))
